@@ -124,6 +124,28 @@ def events_for(env, rng, thorough):
         ra = P.outcome(lambda: (Scalar(a, 1.0) + Scalar(ObtainQuantity(other), 2.0)).GetValue())
         rb = P.outcome(lambda: (Scalar(b, 1.0) + Scalar(ObtainQuantity(other), 2.0)).GetValue())
         ev.append({"op": "SameReq", "call": name + ": a sum on each", "eq": ra == rb and ra[0] == "ok", "ne": ra != rb, "hash1": 0, "hash2": 0, "desc1": str(ra[1:]), "desc2": str(rb[1:]) if ra == rb else str(ra[1:])})
+    # a pickle loaded after a registration emptied the database's quantity cache; a quantity built directly from an ordered map and never cached
+    cold = [ObtainQuantity(OrderedDict([("time", ["s", 1]), ("length", ["m", 1])])), ObtainQuantity(OrderedDict([("length", ["m", 1]), ("time", ["s", -1])])),
+            ObtainQuantity(OrderedDict([("length", ["cm", 2])])), ObtainQuantity("m", "length"), ObtainQuantity("<unknown>", "Unknown", "a caption"),
+            Quantity(OrderedDict([("mass", ["kg", 1]), ("length", ["m", -3])]), None)]
+    for q in cold:
+        data = pickle.dumps(q)
+        db.AddCategory("verif scratch", "length", override=True)
+        q3 = pickle.loads(data)
+        ev.append({"op": "QPickle", "call": "pickle of %s loaded after a registration" % desc(q), "eq": bool(q3 == q) and not bool(q3 != q), "hash1": hash(q), "hash2": hash(q3), "desc1": desc(q), "desc2": desc(q3)})
+        ev.append({"op": "SameReq", "call": "the loaded quantity finds the original as a dict key", "eq": {q: 1}.get(q3) == 1, "ne": False, "hash1": 0, "hash2": 0, "desc1": "", "desc2": ""})
+    # a derived quantity owns its composing map: the caller goes on using (and changing) the map and the lists it passed
+    for builder_name, builder in (("Quantity.CreateDerived", Quantity.CreateDerived), ("ObtainQuantity", ObtainQuantity)):
+        work = OrderedDict([("depth", ["km", 2]), ("time", ["min", -1])])
+        q_a = builder(work)
+        before = qalg.q_snapshot(q_a)
+        work["depth"][1] = 3
+        work["time"][0] = "s"
+        q_b = builder(work)
+        work["mass"] = ["kg", 1]
+        ev.append({"op": "Frozen", "call": "%s(map): the caller changed its map afterwards" % builder_name, "pre": repr(before), "post": repr(qalg.q_snapshot(q_a)), "changed": ""})
+        ev.append({"op": "DiffReq", "call": "%s(map) before and after the caller changed the map" % builder_name, "eq": bool(q_a == q_b), "ne": bool(q_a != q_b), "hash1": hash(q_a), "hash2": hash(q_b),
+                   "desc1": repr(qalg.q_snapshot(q_a)[:2]), "desc2": repr(qalg.q_snapshot(q_b)[:2])})
     # composing maps with the same factors in another order (same rendered strings, different maps): unequal quantities
     for (c1, u1), (c2, u2) in (((("length", "m")), ("time", "s")), (("depth", "km"), ("length", "m")), (("mass", "kg"), ("temperature", "K"))):
         for e1, e2 in ((1, -1), (2, -1), (1, 1)):
